@@ -281,6 +281,17 @@ func (w *World) execCloseOp(ctx context.Context, toks []string) (bool, error) {
 			time.Sleep(2 * time.Millisecond)
 		}
 		w.printf("leak extra=%d kinds=%s subs=%d\n", n-w.leakBase, joinOrDash(strings.Split(kinds, ",")), subs)
+		// … and on the bus of each (still open) instance only the instance's own listener is left
+		for i, pr := range w.peers {
+			if pr.census == nil {
+				continue
+			}
+			own := w.ownBusSubs(i)
+			own["EventPubSubPayload"]++
+			if o := pr.census.open(own); o != "-" {
+				w.printf("buscensus %d %s\n", i, o)
+			}
+		}
 	default:
 		return false, nil
 	}
